@@ -13,6 +13,7 @@ open Lean Pywbem.Proto Pywbem.Model Pywbem.Model.MofCompile
         "qualFiles":R,"deps":R,"modifyClass":A}                           R = {"ok":null} | {"exc":..}
   {"op":"qualifier","inCache":b,"eq":A,"server":b,"createNs":E,"qualFiles":R,"found":b}
   {"op":"instClass","gc1":A,"mof":null|R,"gc2":A}
+  {"op":"cimObject","r":R}
   each of the five             -> {"ok":null} | {"exc":..} -/
 
 def natsToJson (s : List Nat) : Json := Json.arr (s.map (fun (n : Nat) => (n : Json))).toArray
@@ -111,6 +112,7 @@ def handle (j : Json) : Json :=
   | some "qualifier" =>
     unitRes (qualifierLookup ((getBool j "inCache").getD false) (ans j "eq") ((getBool j "server").getD false)
       (optExc j "createNs") (resOf j "qualFiles") ((getBool j "found").getD false))
+  | some "cimObject" => unitRes (cimObject (resOf j "r"))
   | some "instClass" =>
     unitRes (instanceClassLookup (ans j "gc1") (optRes j "mof") (ans j "gc2"))
   | _ => Json.mkObj [("bad", "op")]
